@@ -12,6 +12,9 @@
   bytes first (`decVarfloat64_of_bits`, `ccCounts_step`) and instantiated last, which keeps the kernel from unfolding
   the codec on an open term (the direct statement ran into its recursion limit).
 
+  `decodeOK_contiguous`: `DecodeOK` for an encoded contiguous-counts payload (the second layout the paginated encoder
+  writes; `decodeOK_deltas` is the first), given int32 indexes and `NonnegFin (cntOf b)` for each pattern written.
+
   Core Lean only.
 -/
 import DDS.Proofs.GenPagSketch5
@@ -20,6 +23,7 @@ namespace DDS.GenPagSketch
 
 open DDS DDS.GoSem DDS.PStore DDS.GenPag DDS.Gen.Paginated DDS.Gen.Encoding DDS.Codec DDS.GenEncoding
 open DDS.Gen.Sketch DDS.RoundTrip
+open DDS.GenStoreDecode (dTrace storeIndexes NoWrap subflag)
 
 variable {grow : Int → Int → Int}
 
@@ -90,4 +94,41 @@ theorem ccCounts_enc (R : Bytes) : ∀ (bs : List Nat), (∀ b ∈ bs, b < W64) 
     rw [e, List.length_cons,
       ccCounts_step _ _ _ _ (decVarfloat64_enc b (h b (List.mem_cons_self ..)) _),
       ih (fun x hx => h x (List.mem_cons_of_mem _ hx)), List.map_cons]
+/-- **`DecodeOK` for an encoded contiguous-counts payload**: patterns `counts` (64-bit, each decoding to a finite
+    non-negative count), int32 indexes `start + j·stride` — any store -/
+theorem decodeOK_contiguous (x : GPS grow) (start stride : Int) (counts : List Nat)
+    (hs : I64 start) (ht : I64 stride) (hlen : counts.length < W64) (hW : ∀ b ∈ counts, b < W64)
+    (hidx : ∀ j : Nat, j < counts.length → Idx32 (start + (j : Int) * stride))
+    (hc : ∀ b ∈ counts, NonnegFin (cntOf b)) (R : Bytes) (hR : ∀ y ∈ R, y < 256) :
+    DecodeOK x (bn (Wire.encPayload (.contiguous start stride counts) ++ R))
+      (subflag (Wire.payloadSub (.contiguous start stride counts))) := by
+  have hbytes : nb (bn (Wire.encPayload (.contiguous start stride counts) ++ R)) =
+      Wire.encPayload (.contiguous start stride counts) ++ R :=
+    nb_bn _ (fun y hy => (List.mem_append.1 hy).elim (Wire.encPayload_bytes _ y) (hR y))
+  have e : Wire.encPayload (.contiguous start stride counts) ++ R =
+      encUvarint64 counts.length ++ (encVarint64 start ++ (encVarint64 stride ++
+        (counts.flatMap encVarfloatBits ++ R))) := by
+    show (encUvarint64 counts.length ++ encVarint64 start ++ encVarint64 stride ++
+      counts.flatMap encVarfloatBits) ++ R = _
+    simp only [List.append_assoc]
+  right; left
+  refine ⟨subflag_cc, ?_⟩
+  intro v r0 st r1 sd r2 h0 h1 h2
+  rw [hbytes, e, decUvarint64_encUvarint64 _ hlen] at h0
+  obtain ⟨rfl, rfl⟩ := Prod.mk.inj (Except.ok.inj h0)
+  rw [decVarint64_encVarint64 _ hs.1 hs.2] at h1
+  obtain ⟨rfl, rfl⟩ := Prod.mk.inj (Except.ok.inj h1)
+  rw [decVarint64_encVarint64 _ ht.1 ht.2] at h2
+  obtain ⟨rfl, rfl⟩ := Prod.mk.inj (Except.ok.inj h2)
+  refine ⟨?_, hidx, ?_⟩
+  · have h1 := length_le_flatMap_enc counts
+    have h2 : (bn (Wire.encPayload (.contiguous start stride counts) ++ R)).length =
+        (Wire.encPayload (.contiguous start stride counts) ++ R).length := List.length_map _
+    rw [h2, e]
+    simp only [List.length_append]
+    omega
+  · intro c hc'
+    rw [ccCounts_enc R counts hW] at hc'
+    obtain ⟨b, hb, rfl⟩ := List.mem_map.1 hc'
+    exact hc b hb
 end DDS.GenPagSketch
